@@ -605,3 +605,42 @@ pub fn f64_bits_str(x: f64) -> String {
 pub fn wall_cap_s(tier: &str) -> f64 {
     std::env::var("GV_WALL_CAP").ok().and_then(|s| s.parse().ok()).unwrap_or(if tier == "quick" { 50.0 } else { 3000.0 })
 }
+
+// ---------------------------------------------------------------------------
+// Wall-clock watchdog: a case that runs longer than the limit is a hang
+// ---------------------------------------------------------------------------
+
+pub struct Watchdog {
+    slots: Mutex<std::collections::HashMap<std::thread::ThreadId, (String, Instant)>>,
+}
+
+impl Watchdog {
+    /// starts the monitor thread; on a timeout it prints the VIOLATION line, writes a replay file and exits 1
+    pub fn start(property: &'static str, limit_s: f64) -> std::sync::Arc<Watchdog> {
+        let wd = std::sync::Arc::new(Watchdog { slots: Mutex::new(std::collections::HashMap::new()) });
+        let w2 = wd.clone();
+        std::thread::spawn(move || loop {
+            std::thread::sleep(std::time::Duration::from_millis(500));
+            let g = w2.slots.lock().unwrap();
+            for (_, (case, t0)) in g.iter() {
+                if t0.elapsed().as_secs_f64() > limit_s {
+                    let dir = format!("/verif/replays/{property}");
+                    let _ = std::fs::create_dir_all(&dir);
+                    let path = format!("{dir}/{:016x}.json", fnv(case));
+                    let v = Violation::new("no_hang", "watchdog", case.clone(), format!("case did not finish within {limit_s} s"));
+                    let _ = std::fs::write(&path, serde_json::to_string_pretty(&violation_json(property, "watchdog", &v)).unwrap());
+                    println!("VIOLATION property={property} replay={path}");
+                    println!("  clause=no_hang case={case}: did not finish within {limit_s} s");
+                    std::process::exit(1);
+                }
+            }
+        });
+        wd
+    }
+    pub fn enter(&self, case: &str) {
+        self.slots.lock().unwrap().insert(std::thread::current().id(), (case.to_string(), Instant::now()));
+    }
+    pub fn leave(&self) {
+        self.slots.lock().unwrap().remove(&std::thread::current().id());
+    }
+}
